@@ -211,7 +211,7 @@ fn main() {
                     writeln!(f, "{}", e).unwrap();
                 }
                 let ok = obs["kind"] == "ok";
-                writeln!(f, "{}", json!({"e":"end","i":i,"ok":ok,"rules": if ok { obs["rules"].clone() } else { json!([]) }, "kind": obs["kind"]})).unwrap();
+                writeln!(f, "{}", json!({"e":"end","i":i,"ok":ok,"check":true,"rules": if ok { obs["rules"].clone() } else { json!([]) }, "kind": obs["kind"]})).unwrap();
             }
         }
         "literal" => {
